@@ -59,6 +59,10 @@ def lean_sources():
     return sorted(out)
 
 
+THOROUGH_SCALE = {'C01': 8, 'C02': 8, 'C03': 8, 'C04': 6, 'C06': 6, 'C07': 6, 'C08': 6, 'C09': 4, 'C10': 4, 'C11': 4, 'C12': 5,
+                  'C13': 2, 'C14': 4, 'C15': 8, 'C20': 8}
+
+
 def grep_forbidden():
     hits = []
     for f in lean_sources():
@@ -269,6 +273,11 @@ class Ctx:
             self.mismatches.append(rec)
 
     def budget(self, quick, thorough):
+        # thorough budgets of the checks that are cheap per case are scaled up so that every thorough run explores for minutes
+        return quick if self.tier == 'quick' else thorough * THOROUGH_SCALE.get(self.prop, 1)
+
+    def size(self, quick, thorough):
+        """a size bound (not an iteration count): never scaled"""
         return quick if self.tier == 'quick' else thorough
 
     def elapsed(self):
